@@ -46,8 +46,10 @@ type RevocationStore struct {
 
 	// buckets is an array of elements from which we may derive all
 	// previous elements, each bucket corresponds to the element with the
-	// particular number of trailing zeros.
-	buckets [maxHeight]element
+	// particular number of trailing zeros. An index of maxHeight bits has
+	// between zero and maxHeight trailing zeros (the latter for the last
+	// index, the root of the chain), hence maxHeight+1 buckets.
+	buckets [maxHeight + 1]element
 
 	// index is an available index which will be assigned to the new
 	// element.
